@@ -13,18 +13,7 @@ namespace FontVerif.C02
 open FontVerif FontVerif.Interp FontVerif.InterpLoops FontVerif.InterpLoopsLemmas
 set_option linter.unusedVariables false
 
-/-- well-formed graphics state: `loop_counter ≤ 0xFFFF` (established by `Default` = 1, `op_sloop`'s clamp and the reset
-    to 1 after every use) and the glyph zone's contour end points are `u16` -/
-def Wf (g : G) : Prop := g.loop ≤ 65535 ∧ ∀ c ∈ g.glyphContours, c < 65536
-
-/-- iteration budget of ONE dispatched data opcode in state `g` with value stack `vs` -/
-def work (g : G) (vs : List Int) : Nat := 65536 + g.glyphPts + g.twiPts + vs.length
-
-/-- what one data opcode may do to the data state: keep it well formed, leave the zone sizes alone, and add at most
-    `work g vs` loop iterations -/
-def Step (g : G) (vs : List Int) (g' : G) : Prop :=
-  Wf g' ∧ g'.iters ≤ g.iters + work g vs ∧
-  g'.glyphPts = g.glyphPts ∧ g'.twiPts = g.twiPts ∧ g'.glyphContours = g.glyphContours ∧ g'.cap = g.cap
+/-! `Wf`, `work`, `Step` (the per-dispatch contract of a data opcode) are defined at the end of Model/InterpLoops.lean. -/
 
 theorem step_refl (g : G) (vs : List Int) (h : Wf g) : Step g vs g :=
   ⟨h, by unfold work; omega, rfl, rfl, rfl, rfl⟩
